@@ -30,25 +30,27 @@ class P(Prop):
         ("TracklibVerif.Props.C19", "TV.C19.conservation", "the scatter never fails; cell (i,j) holds exactly the values of the observations whose getCell is (j,i); sizes sum to the number of observations, any per-value weight (e.g. non-NaN) is conserved"),
         ("TracklibVerif.Props.C19", "TV.C19.aggregate_spec", "co_count/co_sum/co_min/co_max/co_avg/co_median = that aggregate over the non-NaN values; no non-NaN value -> 0 for count and sum, no-data otherwise"),
         ("TracklibVerif.Props.C19", "TV.C19.aggregates_entry", "computeAggregates writes, in (line i, column j), the operator's value on that cell with NaN replaced by the no-data value"),
-        ("TracklibVerif.Props.C19", "TV.C19.summarize_spec", "end to end: on a collection with positive-width/height extent summarize never fails, builds a well-formed grid covering all observations and returns computeAggregates of cells holding exactly the located values"),
+        ("TracklibVerif.Props.C19", "TV.C19.summarize_spec", "end to end: on every non-empty collection (a north-south / east-west line of observations or a single one included: one column / one row) summarize never fails, builds a well-formed grid covering all observations and returns computeAggregates of cells holding exactly the located values"),
         ("TracklibVerif.Props.C19", "TV.C19.rat_floor_ceil", "the driver's Rat.floor / Rat.ceil are the Int.floor / Int.ceil of the theorems"),
     ]
     partial = []
     open_statements = ["IEEE rounding in (x-xmin)/rx, margins and sums is outside the theorems (floor-ring statement); sampled by the transfer check"]
-    modelled = ("core/raster.py Raster.__init__ (margin, ncol/nrow), getCell, addAFMap/addCollectionToRaster (scatter with Python list indexing), "
+    modelled = ("core/raster.py Raster.__init__ (margin, ncol/nrow = max(1, ceil(..))), getCell, addAFMap/addCollectionToRaster (scatter with Python list indexing), "
                 "computeAggregates (NaN -> no-data); core/utils.py co_count co_sum co_min co_max co_avg co_median; the collection's bounding box is "
                 "modelled as min/max of the coordinates")
     trusted = ["math.floor / math.ceil / float.is_integer are taken as exact floor, ceiling and integrality of the float"]
     rule = ("exhaustive: grids over [0,W]x[0,H] (W,H in 1..3) for every listed resolution, getCell of every half-integer lattice point in [-0.5,W+0.5]x[-0.5,H+0.5]; "
             "one-track collections (0,0),(2,2),p for every lattice p in [0,2]^2, every listed resolution; "
-            "random: 1..3 tracks on a half-integer lattice (cell borders, outer border, corners), square and non-square resolutions, margins 0/0.125/0.25/0.5 at Rat "
-            "and 0.05/0.1/0.3 at Float, random float coordinates at Float; two features v, w with NaN plus uid; "
+            "every north-south and east-west line of 1..4 observations (steps 0.5 and 1; 1 observation = a single fix) for every listed resolution, margins 0 and 0.25 "
+            "(extent of zero width / height: one column / one row); "
+            "random: 1..3 tracks on a half-integer lattice (cell borders, outer border, corners; 1 in 4 collections lies on one vertical or horizontal line or at a single position), square and non-square resolutions, margins 0/0.125/0.25/0.5 at Rat "
+            "and 0.05/0.1/0.3 at Float, random float coordinates at Float (1 in 6 on one line / at one position); two features v, w with NaN plus uid; "
             "ONE summarize call per case with several (feature, operator) pairs in a generated order (all six operators on v shuffled, or 2..4 operators on v "
             "in any order mixed with operators on w and uid; median first / in the middle / last), every produced grid is checked; 1 in 5 cases summarises the same "
             "collection twice; exhaustive: every ordered pair and triple of distinct operators on one feature over a fixed collection; "
             "direct calls of the cell operators in sequence on ONE list (every ordered pair on fixed lists, random sequences), checking the values and that the list "
-            "is left unchanged; a small stream of collections whose extent is degenerate (all x or all y equal). "
-            "non-trivial = at least 2 cells and at least 2 observations (sum), any (cell, op)")
+            "is left unchanged. "
+            "non-trivial = a grid of at least 2 cells and at least 2 observations (sum), any (cell, op)")
 
     def setup(self):
         from tracklib.core.obs import Obs
@@ -68,6 +70,7 @@ class P(Prop):
     def exhaustive_scopes(self, tier):
         return ["getCell of every half-integer lattice point of [-0.5,W+0.5]x[-0.5,H+0.5] on the grids over [0,W]x[0,H], W,H in 1..3, for %d resolutions" % len(RES),
                 "collections {(0,0),(2,2),p}, p over the 25 half-integer lattice points of [0,2]^2, %d resolutions, margin 0" % len(RES),
+                "collections of 1..4 observations on one north-south or east-west line (steps 0.5 and 1), %d resolutions, margins 0 and 0.25" % len(RES),
                 "one summarize call with every ordered pair (30) and every ordered triple (120) of distinct operators on the same feature, fixed collection with NaN-free, mixed and all-NaN cells",
                 "every ordered pair (36, including the same operator twice) of cell operators called in sequence on one list, for 6 fixed lists"]
 
@@ -83,6 +86,17 @@ class P(Prop):
                 for j in range(5):
                     out.append({"kind": "sum-enum", "mode": "q", "tracks": [[[0, 0, 1.0], [2, 2, 2.0], [i / 2, j / 2, 4.0]]],
                                 "res": list(res), "margin": 0})
+        # extents of zero width / height: every line of 1..4 observations (1 = a single fix), both directions
+        for res in RES:
+            for n in (1, 2, 3, 4):
+                for step in (0.5, 1.0):
+                    if n == 1 and step != 1.0:
+                        continue
+                    for vert in (True, False):
+                        for mg in (0, 0.25):
+                            vs = [1.0, "nan", 3.0, -2.0]
+                            tr = [[1.0 if vert else k * step, k * step if vert else 2.0, vs[k]] for k in range(n)]
+                            out.append({"kind": "sum-line-enum", "mode": "q", "tracks": [tr], "res": list(res), "margin": mg})
         # several aggregates of one feature in one call, in every order
         fixed = [[[0, 0, 3.0, 1.0], [0.5, 0.5, 1.0, "nan"], [0.25, 0.75, 2.0, 2.0], [1.5, 0.5, "nan", 4.0], [1.5, 0.25, 5.0, 4.0]],
                  [[0.5, 1.5, "nan", 7.0], [1.5, 1.5, 4.0, 0.5], [2, 2, 6.0, "nan"], [1.25, 1.75, 4.0, 1.5], [0.75, 0.25, -1.0, 3.0]]]
@@ -108,8 +122,6 @@ class P(Prop):
             out.append(self.floaty(rng))
         for _ in range(nrand // 5):
             out.append(self.cellcase(rng))
-        for _ in range(30):
-            out.append(self.degenerate(rng))
         return out
 
     def values(self, rng, n):
@@ -138,9 +150,11 @@ class P(Prop):
                 y = rng.choice([0, H, rng.randrange(0, 2 * H + 1) / 2, rng.randrange(0, H + 1)])
                 tr.append([ox + x, oy + y, vs[k], ws[k]])
             tracks.append(tr)
-        # make the extent non-degenerate: the two opposite corners are always present
+        # the two opposite corners are always present (the extent is the whole box) ...
         tracks[0][0][0], tracks[0][0][1] = ox, oy
         tracks[-1].append([ox + W, oy + H, rng.choice([1.0, "nan", -3.5]), rng.choice([2.0, "nan"])])
+        # ... except for 1 collection in 4: all observations on one north-south line, one east-west line, or at one position
+        self.flatten(rng, tracks)
         margin = rng.choice([0, 0, 0.125, 0.25, 0.5]) if mode == "q" else rng.choice([0.05, 0.1, 0.1, 0.3])
         return {"kind": "sum-lattice-" + mode, "mode": mode, "tracks": tracks, "res": list(rng.choice(RES)), "margin": margin,
                 "aggs": self.rand_aggs(rng), "runs": 2 if rng.random() < 0.2 else 1}
@@ -174,6 +188,8 @@ class P(Prop):
             tracks.append([[ox + rng.uniform(0, sx), oy + rng.uniform(0, sy), vs[k] if vs[k] == "nan" else vs[k] + rng.choice([0, rng.uniform(-1, 1)]), ws[k]] for k in range(n)])
         tracks[0].append([ox + sx * 1.01, oy + sy * 1.01, 1.0, "nan"])
         tracks[-1].append([ox - sx * 0.01, oy - sy * 0.01, 2.0, 3.0])
+        if rng.random() < 2 / 3:
+            self.flatten(rng, tracks)
         res = [sx / rng.choice([1, 2, 3, 4.5, 7]), sy / rng.choice([1, 2, 3, 4.5, 7])]
         return {"kind": "sum-float", "mode": "f", "tracks": tracks, "res": res, "margin": rng.choice([0, 0.05, 0.1, 0.3]),
                 "aggs": self.rand_aggs(rng), "runs": 2 if rng.random() < 0.2 else 1}
@@ -185,11 +201,22 @@ class P(Prop):
         return {"kind": "cell", "mode": "q", "box": [ox, ox + W, oy, oy + H], "res": list(rng.choice(RES)),
                 "margin": rng.choice([0, 0, 0.25, 0.5]), "pts": pts}
 
-    def degenerate(self, rng):
-        n = rng.randrange(1, 5)
-        vert = rng.random() < 0.5
-        tr = [[1.0 if vert else float(k), float(k) if vert else 2.0, 1.0] for k in range(n)]
-        return {"kind": "sum-degenerate", "mode": "q", "tracks": [tr], "res": [1, 1], "margin": rng.choice([0, 0.25])}
+    def flatten(self, rng, tracks):
+        """with probability 1/4 move all the observations on one vertical / horizontal line or to one position
+        (an extent without width / height); sometimes a single observation"""
+        shape = rng.choice(["box"] * 9 + ["vline", "hline", "point"])
+        if shape == "box":
+            return
+        x0, y0 = tracks[-1][-1][0], tracks[-1][-1][1]
+        if shape == "point" and rng.random() < 0.5:
+            del tracks[1:]
+            del tracks[0][1:]
+        for tr in tracks:
+            for o in tr:
+                if shape in ("vline", "point"):
+                    o[0] = x0
+                if shape in ("hline", "point"):
+                    o[1] = y0
 
     def all_obs(self, case):
         return [o for tr in case["tracks"] for o in tr]
@@ -212,11 +239,20 @@ class P(Prop):
                 out.append(float(i + 1) if feat == "uid" else o[2] if feat == "v" else o[3])
         return out
 
-    def is_degenerate(self, case):
-        if not case["kind"].startswith("sum"):
-            return False
+    def extent(self, case):
+        """shape of the collection's extent: box / vline (no width) / hline (no height) / point"""
         obs = self.all_obs(case)
-        return len({o[0] for o in obs}) == 1 or len({o[1] for o in obs}) == 1
+        nx, ny = len({o[0] for o in obs}), len({o[1] for o in obs})
+        return "point" if nx == 1 and ny == 1 else "vline" if nx == 1 else "hline" if ny == 1 else "box"
+
+    def ncells(self, case):
+        """number of cells of the grid the constructor has to build (up to rounding), for the histogram only"""
+        obs = self.all_obs(case)
+        n = 1
+        for k in (0, 1):
+            w = (max(o[k] for o in obs) - min(o[k] for o in obs)) * (1 + 2 * case["margin"])
+            n *= max(1, math.ceil(w / case["res"][k]))
+        return n
 
     def describe(self, case):
         if case["kind"] == "op":
@@ -224,6 +260,7 @@ class P(Prop):
         t = {"kind": case["kind"], "res": "square" if case["res"][0] == case["res"][1] else "non-square", "margin": case["margin"]}
         if case["kind"].startswith("sum"):
             t["tracks"] = len(case["tracks"])
+            t["extent"] = self.extent(case)
             t["has_nan"] = any(o[2] == "nan" for o in self.all_obs(case))
             ag = self.aggs(case)
             t["naggs"] = len(ag)
@@ -239,7 +276,7 @@ class P(Prop):
     def nontrivial(self, case):
         if case["kind"] in ("cell", "op"):
             return True
-        return len(self.all_obs(case)) >= 2 and not self.is_degenerate(case)
+        return len(self.all_obs(case)) >= 2 and self.ncells(case) >= 2
 
     # ---------------------------------------------------------------- implementation
     def impl(self, case):
@@ -483,11 +520,6 @@ class P(Prop):
                         if isnan(got) or not close(got, want, 1e-9):
                             return ("%s#%s[line %d][col %d] = %r, the values located there %s give %r (aggregates of this call, in order: %s)"
                                     % (f, o, l, c, got, vals, want, ag))
-        return None
-
-    def classify(self, case, impl_out, msg):
-        if self.is_degenerate(case) and isinstance(impl_out, dict) and impl_out.get("err") == "err:index":
-            return "degenerate-extent"
         return None
 
     # ---------------------------------------------------------------- shrinking / search
